@@ -36,6 +36,9 @@ SPECS = {
 }
 
 
+MODEL_WORLD_ONLY = {"own_lists_everywhere"}
+
+
 def load_corpus(prop):
     out = []
     for path in sorted(glob.glob(os.path.join(C.VERIF, "corpus", prop, "elab-*.json"))):
@@ -90,10 +93,14 @@ def run(out, build, problems, prop, tier, specs, gen_cases, nquick, nthorough, r
     broken = [(c, o) for c, o in zip(cases, obs) if isinstance(o, dict)]
     terms = []
     for c, o in live:
-        impl = " ; ".join(SPECS[s] for s in specs)
+        # on the observed history the oracles read liveness / resolution orders / metaclass from the world the
+        # *observed* outcomes give (wi); on the model's own history from the model's world (wm)
+        impl = " ; ".join(SPECS[s] if s in MODEL_WORLD_ONLY else SPECS[s].replace(" wm ", " wi ").replace(" wm)", " wi)")
+                          for s in specs)
         mod = " ; ".join(SPECS[s].replace(" h)", " mh)").replace(" h ", " mh ") for s in specs)
         terms.append("(let c := %s in let h := %s in let mh := run_ecase c in "
                      "let wm := fst (run_defs empty_world (e_ops c)) in "
+                     "let wi := skeleton_world (e_ops c) (map fst h) in "
                      "[if history_eqb mh h then 0%%Z else 1%%Z ; %s ; %s])" % (G.cq_case(c), G.cq_history(o), impl, mod))
     codes = C.coq_eval_lists(HEADER, terms, name="elab", chunk=40)
     ns = len(specs)
